@@ -2,6 +2,7 @@
 
 use crate::core::Check;
 
+pub mod cache;
 pub mod delta;
 pub mod history;
 pub mod jsondelta;
@@ -22,6 +23,9 @@ pub fn all() -> Vec<&'static Check> {
         &jsondelta::C18,
         &rtrsrv::C19,
         &validity::C20,
+        &cache::C26,
+        &cache::C27,
+        &cache::C28,
         &sched::C33,
         &sched::C34,
         &rtrsrv::C36,
